@@ -34,7 +34,8 @@ def run_cli(args, cwd=None, timeout=120, trace=True, env_extra=None, stdin=None)
         env["NORMINETTE_VERIF"] = "1"
         env["NV_TRACE"] = tf
     else:
-        env.pop("NORMINETTE_VERIF", None)
+        env.pop("NV_TRACE", None)
+        env["NORMINETTE_VERIF"] = "1"
     if env_extra:
         env.update(env_extra)
     r = CliRun()
@@ -58,6 +59,10 @@ def run_cli(args, cwd=None, timeout=120, trace=True, env_extra=None, stdin=None)
             with open(tf) as f:
                 txt = f.read()
             r.trace = json.loads(txt) if txt else None
+            if r.trace and r.trace.get("monitor_errors"):
+                from nv import mon
+                for m in r.trace["monitor_errors"][:5]:
+                    mon.note_blind("child", Exception(m))
         except (OSError, ValueError):
             r.trace = None
         try:
